@@ -199,6 +199,17 @@ def build_inputs(chk, n_pairs, n_triples):
         except Exception:
             continue
         inputs.append(("decisions", {"base": b, "D": D, "local": l, "remote": r}))
+    # sweep: the decisions of EVERY enumerated triple whose edits touch the same / adjacent positions or the notebook as a
+    # whole are rendered once (built-in renderer, colour off); the ones that raise or show escape codes go through the
+    # full configuration matrix like any other input
+    from . import mergefam
+    for name, b, l, r, info in mergefam.sweep(chk, "render", 12 if chk.quick else 200):
+        for strat in ("mergetool", "inline"):
+            try:
+                D = decide_notebook_merge(b, l, r, mergedrv.strategy_args(strat))
+            except Exception:
+                continue
+            inputs.append(("decisions", {"base": b, "D": D, "local": l, "remote": r}))
     return inputs
 
 
